@@ -416,7 +416,8 @@ func (p *parser) parseASCII(minLength, maxLength int) (item ast.ItemNode, ok boo
 	for _, t := range tokens {
 		switch t.typ {
 		case tokenTypeQuotedString:
-			val, _ := strconv.Unquote(t.val)
+			// SML strings have no escape sequences: the value is the text between the quotes
+			val := t.val[1 : len(t.val)-1]
 			for _, r := range val {
 				if r > unicode.MaxASCII {
 					val = ""
